@@ -86,6 +86,7 @@ fn main() {
     "C10" => vprop::c10::run(&cfg),
     "C12" => vprop::c12::run(&cfg),
     "C14" => vprop::c14::run(&cfg),
+    "C15" => vprop::c15::run(&cfg),
     "C16" => vprop::c16::run(&cfg),
     "C18" => vprop::c18::run(&cfg),
     "C19" => vprop::c19::run(&cfg),
